@@ -5,7 +5,7 @@ from core import call_matches, call_names, op_place, op_local, backward_slice
 from props import shared
 
 LEVEL = 'proof'
-FLOOR = 18
+FLOOR = 30      # 70% of the 43 obligation instances derived on the tree the rules were last reviewed against
 EXPLANATION = ('A commit that dereferences a tree is planned (Log::begin_record) only on the not-deferred edge; deferral is decided from RwLock::is_locked of '
                'the registered reader and from the used_trees of queued commits; the reader registry is only ever extended (under its write lock), never '
                'shrunk, so a client handle and the planner always share one lock per tree; deferral re-publishes under the new id before cleaning the old '
